@@ -20,7 +20,7 @@ import warnings
 import xml.etree.ElementTree as ET
 
 from harness import cm, pool, vdoc
-from harness.core import Ctx
+from harness.core import Ctx, MachineryError
 from checks import c08, c17
 
 
@@ -315,6 +315,21 @@ def known(kind, what, about="", lazy=None, eager=None):
     return None
 
 
+def shallow_xsd(xsd):
+    a = "</xs:choice></xs:complexType></xs:element></xs:sequence>"
+    b = '<xs:selector xpath="t:s/t:f"/>'
+    if xsd.count(a) != 1 or xsd.count(b) != 1:
+        raise MachineryError("shallow_xsd: the identity schema changed its shape")
+    return xsd.replace(a, a[:-len("</xs:sequence>")] + '<xs:element name="f" type="t:row" minOccurs="0" '
+                       'maxOccurs="unbounded"/></xs:sequence>').replace(b, '<xs:selector xpath="t:s/t:f|t:f"/>')
+
+
+def shallow_xml(xml):
+    import re
+    rows = re.findall(r"<t:f[^>]*/>", xml)
+    return re.sub(r"<t:f[^>]*/>", "", xml).replace("</t:r>", "".join(rows) + "</t:r>")
+
+
 def documents(ctx: Ctx, thorough):
     docs = []
     # identity documents, constraints declared on the root (they span the streamed chunks)
@@ -328,6 +343,11 @@ def documents(ctx: Ctx, thorough):
         for rec in recs[::step]:
             docs.append(((c08.schema_xsd(1, kind, level, "integer", "attr", "child"),),
                          c08.doc_xml(rec["doc"], "integer", "attr"), f"identity/{kind}/{level} {rec['doc']}"))
+    # ... and with the key references as SHALLOW leaves: the f rows directly under the root, above the streamed depth
+    # of lazy=2 (they are validated with the pruned root), the keys inside the chunks - the verdict of a root-level
+    # constraint does not depend on where in its scope a selected row stands (Identity.tla, Level "outer")
+    for d in [x for x in docs if x[2].startswith(("identity/key/outer", "identity/unique/outer"))][:: (2 if thorough else 5)]:
+        docs.append((tuple(shallow_xsd(x) for x in d[0]), shallow_xml(d[1]), "identity-shallow" + d[2][8:]))
     # the same kind of document, LARGER than the parser's read-ahead: 70 000 characters of comment between the scopes
     pad = "<!--" + "x" * 70000 + "-->"
     for d in [x for x in docs if x[2].startswith("identity/key/outer")][:: (3 if thorough else 25)]:
